@@ -202,7 +202,7 @@ func checkC13(c *Ctx, e *Env) {
 				if !strings.HasPrefix(bk, "newid:Batch#") || !strings.HasSuffix(ck, ".ClassKey") || ct != "req.OriginTx.Contract" {
 					bad = fmt.Sprintf("row is {BatchKey: %s, ClassKey: %s, Contract: %s}", bk, ck, ct)
 				}
-				if !factBefore(st, "-Eq(0, len(req.OriginTx.Contract))", ev) {
+				if !factBefore(st, `-StrEq("", req.OriginTx.Contract)`, ev) {
 					bad = "contract bound without the non-empty test"
 				}
 			}
